@@ -46,7 +46,7 @@ def gen_case(ch, params):
                 w64 = ch.below(3) == 0
                 # 64-bit waits / stores also use values that agree in the low half and differ only in bits 32..63
                 exp = ch.pick(VALS64) if w64 else ch.pick((0, 0, 0, 1, 7))
-                timeout = ch.pick((-1, -1, 0, 1000000))
+                timeout = ch.pick((-1, -1, 0, 1000000, 1000000, (1 << 63) - 1, (1 << 63) - 2, 999999999, 1000000000, 4000000000))
                 ops.append([1 if w64 else 0, a, exp, timeout])
             elif k < 7:
                 ops.append([2, a, ch.pick((0, 1, 1, 2, 0xffffffff)), 0])
